@@ -1108,4 +1108,85 @@ theorem isEmpty_den (r : Rep) (h : r.wf) (he : r.isEmpty = true) : (den r).len =
   · rw [isEmpty_fin r n h1] at he; rw [h2]; simpa using he
   · rw [isEmpty_inf r h1] at he; cases he
 
+
+/-! ## copying -/
+/-- the evaluations of the `n` elements of a list starting at position `i` -/
+def elemsFrom (d : Sem) : Nat → Nat → List (Res Val)
+  | _, 0 => []
+  | i, n + 1 => d.el i :: elemsFrom d (i + 1) n
+
+/-- copying a run of elements out of a representation evaluates exactly the elements of the denoted list, left
+to right, the first failure winning -/
+theorem collectFrom_den (r : Rep) (h : r.wf) : ∀ (n i : Nat), (∀ k, k < n → (den r).valid (i + k)) →
+    collectFrom r i n = tupAll (elemsFrom (den r) i n)
+  | 0, _, _ => rfl
+  | n + 1, i, hv => by
+      have h0 := get_den r h i (by simpa using hv 0 (by omega))
+      have ih := collectFrom_den r h n (i + 1) (fun k hk => by
+        have := hv (k + 1) (by omega)
+        rw [show i + 1 + k = i + (k + 1) by omega]; exact this)
+      simp only [collectFrom, elemsFrom, h0, ih]
+      cases (den r).el i with
+      | ok v => simp only [tupAll]; cases tupAll (elemsFrom (den r) (i + 1) n) <;> rfl
+      | err m => rfl
+      | panic m => rfl
+
+theorem array_elems : ∀ (xs pre : List Val),
+    tupAll (elemsFrom (den (.array (pre ++ xs))) pre.length xs.length) = .ok xs
+  | [], _ => rfl
+  | x :: xs, pre => by
+      have ih := array_elems xs (pre ++ [x])
+      simp only [List.append_assoc, List.singleton_append, List.length_append, List.length_singleton] at ih
+      simp only [elemsFrom, List.length_cons]
+      have : (den (.array (pre ++ x :: xs))).el pre.length = .ok x := by
+        simp [den]
+      rw [this]; simp only [tupAll, ih]
+
+/-- all elements of a finite sequence, as `collect` gathers them (arrays are iterated directly) -/
+theorem collect_den (r : Rep) (h : r.wf) (n : Nat) (hn : (den r).len = some n) :
+    r.collect n = tupAll (elemsFrom (den r) 0 n) := by
+  have hv : ∀ k, k < n → (den r).valid (0 + k) := by
+    intro k hk; simp [Sem.valid, optValid, hn, hk]
+  cases r with
+  | array xs =>
+    simp only [Rep.collect]
+    have : n = xs.length := by simp [den] at hn; exact hn.symm
+    subst this
+    have := array_elems xs []
+    simpa using this.symm
+  | empty => exact collectFrom_den _ h n 0 hv
+  | range a b c => exact collectFrom_den _ h n 0 hv
+  | map a f => exact collectFrom_den _ h n 0 hv
+  | mapGet a b g => exact collectFrom_den _ h n 0 hv
+  | zip rs => exact collectFrom_den _ h n 0 hv
+  | chain ps ms => exact collectFrom_den _ h n 0 hv
+  | slice a b c => exact collectFrom_den _ h n 0 hv
+  | count => exact collectFrom_den _ h n 0 hv
+
+
+/-- the list-level result of a copying update: evaluate the listed element runs of the denoted list (first
+failure wins) and build an array from the pieces -/
+def listResult (pieces : Res (List Val)) (k : List Val → List Val) : V :=
+  match pieces with
+  | .ok vs => .seq (Rep.mkArray (k vs))
+  | .err m => .err m
+  | .panic m => .panic m
+
+theorem liftList_eq (x : Res (List Val)) (k : List Val → List Val) :
+    liftList x (fun vs => .seq (Rep.mkArray (k vs))) = listResult x k := by
+  cases x <;> rfl
+
+def listResult2 (a b : Res (List Val)) (k : List Val → List Val → List Val) : V :=
+  match a with
+  | .ok pre => (match b with
+      | .ok post => .seq (Rep.mkArray (k pre post))
+      | .err m => .err m
+      | .panic m => .panic m)
+  | .err m => .err m
+  | .panic m => .panic m
+
+theorem liftList2_eq (a b : Res (List Val)) (k : List Val → List Val → List Val) :
+    liftList a (fun pre => liftList b fun post => .seq (Rep.mkArray (k pre post))) = listResult2 a b k := by
+  cases a <;> cases b <;> rfl
+
 end XrayModel.Seq
